@@ -244,7 +244,32 @@ Proof.
 Qed.
 
 (* ------------------------------------------------------------------ entity tags *)
-Definition tag_ok (x : str) : bool := negb (mem DQ x) && negb (mem LF x).
+(* a tag that re-parses from inside quotes: no line feed, and no double quote that is followed (after blanks) by a comma.
+   Every tag without a double quote is one (simple_tag_ok), and so is every tag parse_etags returns (Proofs7.v). *)
+Definition comma_head (s : str) : bool := match s with c :: _ => c =? COMMA | [] => false end.
+Fixpoint tag_ok (t : str) : bool :=
+  match t with
+  | [] => true
+  | c :: r => negb (c =? LF) && (if c =? DQ then negb (comma_head (drop_while uni_ws r)) else true) && tag_ok r
+  end.
+Definition simple_tag (x : str) : bool := negb (mem DQ x) && negb (mem LF x).
+
+Lemma simple_tag_ok x : simple_tag x = true -> tag_ok x = true.
+Proof.
+  unfold simple_tag. intro H. apply andb_prop in H. destruct H as [H1 H2]. apply negb_true_iff in H1, H2.
+  induction x as [|c x IH]; [reflexivity|]. rewrite mem_cons in H1, H2. apply orb_false_elim in H1. apply orb_false_elim in H2.
+  destruct H1 as [A1 B1]. destruct H2 as [A2 B2]. cbn [tag_ok]. rewrite N.eqb_sym in A1. rewrite N.eqb_sym in A2. rewrite A1, A2, (IH B1 B2). reflexivity.
+Qed.
+
+Lemma term_none_quote x more : comma_head (drop_while uni_ws x) = false -> etag_term (x ++ DQ :: more) = None.
+Proof.
+  intro H. unfold etag_term.
+  assert (Hd : exists c0 r0, drop_while uni_ws (x ++ DQ :: more) = c0 :: r0 /\ (c0 =? COMMA) = false).
+  { induction x as [|a x IH]; [exists DQ, more; split; reflexivity|]. cbn [app drop_while] in *. destruct (uni_ws a); [apply IH; exact H|].
+    exists a, (x ++ DQ :: more). split; [reflexivity|exact H]. }
+  destruct Hd as (c0 & r0 & -> & Hc). rewrite Hc.
+  destruct x as [|a [|b x]]; cbn [app]; [destruct more; reflexivity|reflexivity|reflexivity].
+Qed.
 Definition etag_domain (e : etags) : bool :=
   if star e then match strong e, weak e with [], [] => true | _, _ => false end
   else forallb tag_ok (strong e) && forallb tag_ok (weak e).
@@ -264,12 +289,11 @@ Qed.
 Lemma etag_quoted_tag x more rest : tag_ok x = true -> etag_term more = Some rest ->
   etag_quoted (x ++ DQ :: more) = Some (x, rest).
 Proof.
-  unfold tag_ok. intros H Ht. apply andb_prop in H. destruct H as [H1 H2]. apply negb_true_iff in H1, H2.
-  induction x as [|c x IH].
+  intros H Ht. induction x as [|c x IH].
   - cbn [app etag_quoted]. rewrite N.eqb_refl, Ht. reflexivity.
-  - rewrite mem_cons in H1, H2. apply orb_false_elim in H1. apply orb_false_elim in H2.
-    destruct H1 as [Hc1 Hx1]. destruct H2 as [Hc2 Hx2]. cbn [app etag_quoted].
-    rewrite N.eqb_sym in Hc1. rewrite N.eqb_sym in Hc2. rewrite Hc1, Hc2. rewrite IH by assumption. reflexivity.
+  - cbn [tag_ok] in H. apply andb_prop in H. destruct H as [H Hx]. apply andb_prop in H. destruct H as [Hlf Hq].
+    apply negb_true_iff in Hlf. cbn [app etag_quoted]. rewrite Hlf, (IH Hx). destruct (c =? DQ); [|reflexivity].
+    apply negb_true_iff in Hq. rewrite (term_none_quote x more Hq). reflexivity.
 Qed.
 
 Lemma etag_match_rtag x w more rest : tag_ok x = true -> etag_term more = Some rest ->
